@@ -234,6 +234,33 @@ Definition dispatch_row_ok (r : dispatch_row) : bool :=
   | _, _ => false
   end.
 
+(* ---------------- native gates: the emitted fields are the gate's own parameters ---------------- *)
+Inductive nfam := NGPI | NGPI2 | NMS | NZZ.
+(* gate parameters (units of 10^-10: phi | phi0 phi1 theta | theta) -> mnemonic, layout, numeric fields
+   (a list-valued field "phases" is flattened to "phases.0", "phases.1") *)
+Definition native_emission := (string * layout * list (string * Z))%type.
+Definition ionq_native_emit (f : nfam) (ps : list Z) : option native_emission :=
+  match f, ps with
+  | NGPI, [phi] => Some ("gpi", LTarget, [("phase", phi)])
+  | NGPI2, [phi] => Some ("gpi2", LTarget, [("phase", phi)])
+  | NMS, [p0; p1; th] => Some ("ms", LTargets, [("phases.0", p0); ("phases.1", p1); ("angle", th)])
+  | NZZ, [th] => Some ("zz", LTargets, [("phase", th)])
+  | _, _ => None
+  end%string.
+Definition native_row := (nfam * list Z * native_emission)%type.
+Fixpoint fields_eqb (a b : list (string * Z)) : bool :=
+  match a, b with
+  | [], [] => true
+  | (s, x) :: a', (t, y) :: b' => String.eqb s t && Z.eqb x y && fields_eqb a' b'
+  | _, _ => false
+  end.
+Definition native_row_ok (r : native_row) : bool :=
+  let '(f, ps, (m', l', fs')) := r in
+  match ionq_native_emit f ps with
+  | Some (m, l, fs) => String.eqb m m' && layout_eqb l l' && fields_eqb fs fs'
+  | None => false
+  end.
+
 (* the Cirq gate family of the reference model each dispatch family serializes *)
 Definition ifam_eig (f : ifam) : eigfam :=
   match f with
